@@ -1,6 +1,7 @@
 \* a wrong update procedure (expected to FAIL): the copy is removed before the new snapshot has arrived, so a failing
 \* snapshot leaves nothing and a current copy turns into "unavailable"
 SPECIFICATION Spec
-CONSTANT Variant = "snapshot_first_removes"
+CONSTANTS MaxRuns = 2
+  Variant = "snapshot_first_removes"
 INVARIANTS C29_FollowsTable C29_RrdpOnlyIfAnnouncedAndEnabled
 CHECK_DEADLOCK FALSE
